@@ -1492,8 +1492,9 @@ def run_e2e_suite(ctx: Ctx, G: Groups, K: int) -> None:
                 cur = r1["cols"]["z__" + op_suffix(op)]
             if okc and not vals_close(cur, ref_vals, 1e-9):
                 ctx.violation("e2e", case, f"{name!r} yields {ref_vals}; applying its suffixes one at a time left to right yields {cur}", ref_vals, cur)
-        # oracle D: direct Python computation
-        if all(op["g"] in ("AggregatedFeatureGroup", "MissingValueFeatureGroup", "TimeWindowFeatureGroup") for op in ch["ops"]):
+        # oracle D: direct Python computation (Pandas only: what a single operation computes on the other frameworks - integer
+        # truncation of an imputed mean on PyArrow, approximate medians - is C19's subject; their composition is oracle C)
+        if fwname == "PandasDataFrame" and all(op["g"] in ("AggregatedFeatureGroup", "MissingValueFeatureGroup", "TimeWindowFeatureGroup") for op in ch["ops"]):
             cur2: Optional[List[Any]] = cols[ch["src"][0]]
             for op in ch["ops"]:
                 cur2 = direct_op(op, cur2, exact_median=(fwname == "PandasDataFrame")) if cur2 is not None else None
